@@ -26,14 +26,21 @@ def env_key(k):
     return bool(k) and k[0] == "$SYS" and (len(k) < 2 or k[1] not in ("clients", "subscriptions", "locks"))
 
 
-def strip_env(rep, parent_len=1):
+ENV_TREE = {("$SYS",): ENV_NAMES, ("$SYS", "store"): {"mode", "values"}, ("$SYS", "store", "values"): {"count"}}
+
+
+def strip_env(rep, parent=None):
     if not isinstance(rep, dict):
         return rep
     if rep.get("t") == "kvs":
         rep = dict(rep, kvs=[kv for kv in rep["kvs"] if not env_key(kv[0])])
-    if rep.get("t") == "list" and parent_len == 1:
-        # children of $SYS (asked for as $SYS or through a one-segment pattern)
-        rep = dict(rep, list=[x for x in rep["list"] if x not in ENV_NAMES])
+    if rep.get("t") == "list" and parent is not None:
+        # children of the server-maintained nodes under $SYS, asked for directly or through wildcards
+        drop = set()
+        for node, names in ENV_TREE.items():
+            if len(node) == len(parent) and all(q in (e, "?") for q, e in zip(parent, node)):
+                drop |= names
+        rep = dict(rep, list=[x for x in rep["list"] if x not in drop])
     return rep
 
 
@@ -73,9 +80,13 @@ def postprocess(src, dst):
                     r["ret"] = INF
                 r.pop("wait", None)
                 if "rep" in r:
-                    r["rep"] = strip_env(r["rep"], len(r.get("parent", r.get("pat", [None])) or []))
+                    r["rep"] = strip_env(r["rep"], r.get("parent", r.get("pat")) if r.get("op") in ("ls", "pls") else None)
                 log.append(r)
-            if v.get("closed") and not closed:
+            # a session whose final round trip stayed unanswered is dead for the server even if the socket
+            # was not closed (over TCP the connection of an ended session stays open while subscription
+            # forwarders still hold its sender)
+            dead = bool(log) and log[-1].get("sync") and log[-1].get("rep", {}).get("t") == "none"
+            if (v.get("closed") or dead) and not closed:
                 # the server ended the session: that happened when it read the first line it did not
                 # answer; what the harness sent afterwards went nowhere
                 # (the first record of the trailing run of unanswered records: a pending acquire-lock request is
